@@ -5,7 +5,7 @@
    that the C05 closure does not pull in the AMG development). *)
 From Coq Require Import QArith Qcanon.
 From Amgcl Require Import Scalar QcInst Vec Kernels KernelsProofs Krylov KrylovRef KrylovProofs
-                          KrylovMathVec KrylovMathCG KrylovMathGmres AmgOrder.
+                          KrylovMathVec KrylovMathCG KrylovMathGmres KrylovMathLsq KrylovMathMinres AmgOrder.
 Local Close Scope Q_scope.
 Local Close Scope Qc_scope.
 Local Open Scope S_scope.
@@ -233,4 +233,84 @@ Proof.
   split; [reflexivity|]. split; [intros k Hk; replace k with 0 by lia; reflexivity|].
   split; [qc_neq|]. split; [|qc_eq].
   intros a b Ha Hb. replace a with 0 by lia. replace b with 0 by lia. qc_eq.
+Qed.
+
+(* ---------------- the abstract minimal-residual theorem (KrylovMathLsq.v): one Arnoldi step of AG from
+   r0 = e1: K e1 = 3 e1 + 4 e2, rotation (3/5, 4/5); every y gives a residual >= (4/5)^2 ---------------- *)
+Definition vE (l : nat) : vec QcS := nth l [[s1; s0; s0]; [s0; s1; s0]; [s0; s0; s1]] [s0; s0; s0].
+Definition hE (c l : nat) : QcS := match c with O => nth l [qc 3 1; qc 4 1] s0 | _ => s0 end.
+Definition gE (l : nat) : QcS := match l with O => s1 | _ => s0 end.
+Definition csE (_ : nat) : QcS := qc 3 5.
+Definition snE (_ : nat) : QcS := qc 4 5.
+Lemma AG_len v : length v = 3 -> length (AG v) = 3.
+Proof. intro L. vec3 v. reflexivity. Qed.
+Lemma AG_lin : linear_on 3 AG.
+Proof.
+  intros a x y Lx Ly. vec3 x. vec3 y. unfold c4, c3, c2. simpl.
+  f_equal; [ring|]. f_equal. ring.
+Qed.
+
+Ltac qc_veq := repeat (apply (f_equal2 (@cons (T QcS))); [qc_eq|]); reflexivity.
+Example gmres_minres_hypotheses_satisfiable :
+  (forall x, length x = 3 -> length (AG x) = 3) /\ linear_on 3 AG /\
+  (forall l, l <= 1 -> length (vE l) = 3) /\
+  (forall a b, a <= 1 -> b <= 1 -> rdot (vE a) (vE b) = if Nat.eqb a b then s1 else s0) /\
+  (forall c, c < 1 -> AG (vE c) = comb 3 vE (hE c) 2) /\
+  [s1; s0; s0] = comb 3 vE gE 2 /\
+  (forall l, l < 1 -> csE l * csE l + snE l * snE l = s1) /\
+  (forall c, c < 1 -> Qn csE snE 1 (hE c) 1 = s0).
+Proof.
+  split; [exact AG_len|]. split; [exact AG_lin|].
+  split; [intros [|[|l]] Hl; try lia; reflexivity|].
+  split; [intros [|[|a]] [|[|b]] Ha Hb; try lia; qc_eq|].
+  split; [intros [|c] Hc; try lia; unfold comb; simpl; qc_veq|].
+  split; [unfold comb; simpl; qc_veq|].
+  split; [intros [|l] Hl; try lia; qc_eq|].
+  intros [|c] Hc; try lia. qc_eq.
+Qed.
+Example gmres_minres_example : forall y : nat -> QcS,
+  let r := vsub [s1; s0; s0] (AG (comb 3 vE y 1)) in ole (qc 16 25) (rdot r r).
+Proof.
+  destruct gmres_minres_hypotheses_satisfiable as (H1 & H2 & H3 & H4 & H5 & H6 & H7 & H8).
+  intros y.
+  pose proof (gmres_minimal_residual_lower_bound QcS_ring QcS_real QcS_ordered' 3 vE AG H1 H2 1 gE hE csE snE
+                [s1; s0; s0] H3 H4 H5 H6 H7 H8 y) as B.
+  replace (qc 16 25) with (Qn csE snE 1 gE 1 * Qn csE snE 1 gE 1) by qc_eq. exact B.
+Qed.
+
+(* ---------------- the minimal-residual lower bound ON THE MODEL (KrylovMathMinres.v): one pass of the
+   inner loop of gmres.hpp on the GMRES example system; every hypothesis holds by computation ---------------- *)
+Lemma KopG_len x : length x = 3 -> length (Kop AG Pid false x) = 3.
+Proof. exact (AG_len x). Qed.
+Lemma KopG_lin : linear_on 3 (Kop AG Pid false).
+Proof. exact AG_lin. Qed.
+Example gmres_model_minres_hypotheses_satisfiable :
+  length (g_v wG 0) = 3 /\ rdot (g_v wG 0) (g_v wG 0) = s1 /\
+  (forall i, i < 1 -> arn_h (W AG Pid false wG i) i (Kv AG Pid false wG i) <> s0) /\
+  (forall i, i < 1 ->
+     arn_h (W AG Pid false wG i) i (Kv AG Pid false wG i) * arn_h (W AG Pid false wG i) i (Kv AG Pid false wG i) =
+     rdot (arn_w (W AG Pid false wG i) i (Kv AG Pid false wG i)) (arn_w (W AG Pid false wG i) i (Kv AG Pid false wG i))) /\
+  (forall i, i < 1 -> unit_rot (g_cs (W AG Pid false wG (SS i)) i) (g_sn (W AG Pid false wG (SS i)) i)) /\
+  (forall i, i < 1 ->
+     let dx := tail_H3 (Wb AG Pid false wG i) i (Kv AG Pid false wG i) i i in
+     let dy := tail_H3 (Wb AG Pid false wG i) i (Kv AG Pid false wG i) (SS i) i in
+     is_zero dy = false -> sltb (sabs dx) (sabs dy) = false -> dx <> s0) /\
+  (forall l, 0 < l -> g_s wG l = s0).
+Proof.
+  split; [reflexivity|]. split; [qc_eq|].
+  split; [intros [|i] Hi; try lia; qc_neq|].
+  split; [intros [|i] Hi; try lia; qc_eq|].
+  split; [intros [|i] Hi; try lia; unfold unit_rot; qc_eq|].
+  split; [|exact wG_tail].
+  intros [|i] Hi; try lia. intros dx dy _ H. exfalso. revert H. vm_compute. discriminate.
+Qed.
+Example gmres_model_minres_example : forall y : nat -> QcS,
+  let r := vsub (vscal (g_s wG 0) (g_v wG 0)) (Kop AG Pid false (comb 3 (V AG Pid false wG 1) y 1)) in
+  ole (g_s (W AG Pid false wG 1) 1 * g_s (W AG Pid false wG 1) 1) (rdot r r) /\
+  g_s (W AG Pid false wG 1) 1 * g_s (W AG Pid false wG 1) 1 = qc 16 25.
+Proof.
+  destruct gmres_model_minres_hypotheses_satisfiable as (H1 & H2 & H3 & H4 & H5 & H6 & H7).
+  intro y. split; [|qc_eq].
+  exact (gm_residual_lower_bound QcS_field QcS_eqb QcS_real QcS_ofQ0 QcS_ofQ1 3 AG Pid false KopG_len KopG_lin wG 1
+           H1 H2 H3 H4 H5 H6 QcS_ordered' H7 y).
 Qed.
